@@ -63,7 +63,7 @@ MANIFEST = dict(
          "returned move is accepted by MovePreallocated for every configuration, 0 < RandomizeWindow <= 2^29 and any RandomizeScale, and with the "
          "default scale it never panics; with RandomizeScale > RandomizeWindow it DOES panic (rand.Int63n(0); C04_get_move_scale_panics, reproduced "
          "on the real engine; outside the option lattice of the property); C04_pv_replays_precise - for MakePrecise without a table the WHOLE "
-         "reported variation replays legally, for every value and every cancellation point, and so does every line AnalyzeAll lists (C04_analyze_all_lines_replay_precise). "
+         "reported variation replays legally, for every value and every cancellation point, and so does every line the repaired AnalyzeAll lists, at every cancellation point (C04_analyze_all_lines_replay_precise). "
          "Monte-Carlo player: model coq/Mcts.v executed against ai/mcts pass by pass; every returned move legal for any random stream, "
          "score function and clock (C04_mcts_getmove_legal); no-panic partial. "
          "Opening book: model coq/Opening.v (BuildOpeningBook, OpeningBook.GetMove, OpeningPlayer.GetMove) executed against ai/opening.go "
